@@ -32,11 +32,11 @@ def run(c):
         r = c.tlc("partset", "bf.cfg", module="MC_BlockFields", files={"bf.cfg": c13.cfg_bf(initial, False, 2, False, invs)},
                   dump_to=dump, timeout=3000, tag=tag)
         c13.must_hold(c, r, tag)
-        g = c.gotest("partset", "TestBlockFields", env=dict(BF_DUMP=dump, BF_INITIAL=int(initial), BF_SCENES=2), timeout=3000,
+        g = c.gotest("partset", "TestBlockFields", env=dict(BF_DUMP=dump, BF_INITIAL=int(initial), BF_SCENES=2, BF_STRICT=1), timeout=3000,
                      tag="join: real ValidateBlock on " + tag)
         c.absorb(g)
         if not initial:
-            g = c.gotest("partset", "TestBlockFields", env=dict(BF_DUMP=dump, BF_INITIAL=0, BF_CHANGED=1, BF_SCENES=2), timeout=3000,
+            g = c.gotest("partset", "TestBlockFields", env=dict(BF_DUMP=dump, BF_INITIAL=0, BF_CHANGED=1, BF_SCENES=2, BF_STRICT=1), timeout=3000,
                          tag="join: real ValidateBlock, validator set changed between heights 2 and 3")
             c.absorb(g)
         os.remove(dump)
